@@ -343,6 +343,14 @@ theorem dp_any_tiebreak_tolerance_any_arithmetic (sqrt : α → α) (eps : α) (
     ∀ out ∈ dpAllFuel sqrt eps L.length L, ∀ p ∈ L, ∃ a b, [a, b] <:+: out ∧ W p a b :=
   fun out h => dpAllFuel_tolerance_ord sqrt eps W hbase hself L.length L out h h2
 
+/-- T3' (termination under rounded arithmetic): the hypothesis of T3 — `distance_to_segment(A; A, B)` is never `> 0` — follows from six
+zero laws of the arithmetic (`ZeroLaws`: `x − x = 0`, `0·x = 0`, `0 + 0 = 0`, `0/x = 0`, `x + 0 = x`, `sqrt 0 = 0`; IEEE doubles
+satisfy them on finite values) and the order: in either branch of `l == 0` the computed distance is `0`. Hence Douglas–Peucker
+returns on every track for every `eps > 0`. -/
+theorem dp_total_zero_laws (sqrt : α → α) (hz : ZeroLaws sqrt) (eps : α) (heps : (0 : α) < eps) (L : List (Fix α)) :
+    ∃ out, douglasPeucker sqrt eps L = some out :=
+  dp_total_of_self_distance sqrt eps heps (fun a b => by rw [distFix_self_ord sqrt hz a b]; exact lt_irrefl _) L
+
 /-- the statement of C16 for Douglas–Peucker under **any arithmetic on a total order**: if a chord's first end is never at a
 strictly positive computed distance from it (`hd0`; checked bit-exactly on the implementation by the `dist` stream) the call
 returns; the result is a sub-sequence with both ends; every input fix is accepted (T5'). -/
@@ -500,6 +508,9 @@ example {α : Type} [Field α] [LinearOrder α] [IsStrictOrderedRing α] (sqrt :
 /-- an arithmetic that is *not* exact — integers with truncating division and an integer square root — is a legitimate scalar
 type for T5', T10 and T12: Douglas–Peucker run on it (the computed distance of `(2,3)` to the chord is `sqrt 9 = 3`) -/
 def isqrt (x : Int) : Int := Int.ofNat (Nat.sqrt x.toNat)
+
+example : ZeroLaws isqrt :=
+  ⟨Int.sub_self, Int.zero_mul, rfl, Int.zero_ediv, Int.add_zero, by decide⟩
 
 example : douglasPeucker isqrt 4 [(⟨0, 0, 0⟩ : Fix Int), ⟨1, 2, 3⟩, ⟨2, 4, 0⟩] = some [⟨0, 0, 0⟩, ⟨2, 4, 0⟩] := by decide +kernel
 
